@@ -387,6 +387,23 @@ def gen_policy_scripts(work, mode, tier, seed, quick_n=1500):
     return r, scripts, len(qs)
 
 
+def gen_moved_client_scripts(tier, seed):
+    """One logged-in session downloads connection files for the same host from several client addresses (a client that
+    moved): every file's token is bound to the address IT was issued to, whatever the session's other tokens say."""
+    scripts = []
+    for n in range(3 if tier == "quick" else 12):
+        for tr in ("ws", "legacy"):
+            cfg = {"tokenAuth": True, "smartCard": False, "auth": "openid", "sel": ["roundrobin", "unsigned"][n % 2], "hosts": [["H1", ":", "PA"]], "verifyIp": True, "idle": 0}
+            g = "mv%d%s" % (n, tr)
+            a, b = "10.0.%d.1" % n, "10.0.%d.2" % n
+            for k, (mint, use) in enumerate([(a, a), (b, b), (b, a), (a, b), (a, a)]):
+                tun = {"user": "user1", "hostName": ["H1"], "hostPort": "PA", "entry": ["H1", ":", "PA"], "loginGroup": g, "mintXFF": mint, "useXFF": use}
+                steps = [{"k": "hs", "cls": "valid", "caps": 2, "major": 1, "minor": 0}, {"k": "create", "cls": "valid", "cookie": "good"}, {"k": "auth", "cls": "valid"},
+                         {"k": "chan", "cls": "valid", "name": ["H1"], "port": "PA"}, {"k": "data", "cls": "valid", "n": 8}]
+                scripts.append({"id": "mv%03d%s%d" % (n, tr, k), "origin": "policy:moved-client", "cfg": cfg, "transport": tr, "tun": tun, "steps": steps, "grp": g})
+    return scripts
+
+
 # ---------------------------------------------------------------- C17: capability negotiation
 
 def gen_caps_scripts(tier, seed):
